@@ -652,9 +652,11 @@ impl FixtureDatabase {
         let canonical = file_path
             .canonicalize()
             .unwrap_or_else(|_| file_path.to_path_buf());
-        self.plugin_fixture_files.insert(canonical, ());
+        self.plugin_fixture_files.insert(canonical.clone(), ());
 
-        if let Ok(content) = std::fs::read_to_string(file_path) {
+        // Prefer the cached text (the editor buffer once the document was opened) over the
+        // on-disk text; get_file_content falls back to reading the file.
+        if let Some(content) = self.get_file_content(&canonical) {
             self.analyze_file(file_path.to_path_buf(), &content);
         }
     }
@@ -1045,9 +1047,10 @@ impl FixtureDatabase {
 
                     // Mark this file as a plugin file so fixtures get is_plugin=true
                     let canonical = path.canonicalize().unwrap_or_else(|_| path.to_path_buf());
-                    self.plugin_fixture_files.insert(canonical, ());
+                    self.plugin_fixture_files.insert(canonical.clone(), ());
 
-                    if let Ok(content) = std::fs::read_to_string(path) {
+                    // Prefer the cached text (editor buffer) over the on-disk text
+                    if let Some(content) = self.get_file_content(&canonical) {
                         self.analyze_file(path.to_path_buf(), &content);
                     }
                 }
